@@ -7,6 +7,7 @@ CONSTANTS
   HistN = 1
   HistLen = 3
   Deep = FALSE
+  AngleCodes <- AngleCodesQ
   NB = 32
 INVARIANT SeqEqSim
 INVARIANT CodeEqDef
